@@ -340,7 +340,10 @@ PAIRS = [
     Pair("direct-namespace-predicate", "shexer.utils.triple_yielders:check_if_property_belongs_to_namespace_list",
          "shexer.utils.triple_yielders:check_if_property_belongs_to_namespace_list", props=()),
     Pair("set-valid-constraints-direct-vs-2d", DSS + "set_valid_shape_constraints", DIS + "set_valid_shape_constraints",
-         mode="subset", props=("C02", "C14"), why="the direct statements are selected and tuned the same way with and without inverse_paths"),
+         mode="equal", props=("C02", "C14"),
+         expected=[(r"v1 = self\._select_valid_statements_of_shape\(v0\.direct_statements\)",
+                    r"v1 = self\._select_valid_statements_of_shape\(v0\.direct_statements\) \+ self\._select_valid_statements_of_shape\(v0\.inverse_statements\)",
+                    "with inverse paths the selected inverse statements are appended to the selected direct ones")], why="the direct statements are selected and tuned the same way with and without inverse_paths"),
     Pair("remove-statements-direct-vs-2d", DSS + "remove_statements_to_gone_shapes", DIS + "remove_statements_to_gone_shapes",
          mode="prefix", props=("C05", "C14")),
     Pair("remove-statements-2d-direct-vs-inverse", DIS + "remove_statements_to_gone_shapes", DIS + "remove_statements_to_gone_shapes",
